@@ -20,9 +20,11 @@ from mc.harness.client import make_client
 from mc.harness.methods import MARK, registered_error
 from mc.refmodel import wire
 from mc.refmodel.server import typed_eq
+
+from .common_server import norm
 from mc.vloop import VLoop
 
-VALS = [None, 0, 'x', [1, 'a'], {'k': None}, 1.5]
+VALS = [None, 0, 'x', [1, 'a'], {'k': None}, 1.5, {}, '', False]
 ARGSHAPES = ['none', 'p1', 'p2', 'n1', 'n2']
 
 
@@ -80,6 +82,11 @@ class Served:
             log.append(('terr', a, b))
             raise TErr(7001, 'typed', data=[a, b])
 
+        def ferr(a='da', b='db'):
+            # a typed error whose data is the first argument: null, 0, '' ... travel as data too
+            log.append(('ferr', a, b))
+            raise TErr(7001, 'typed', data=a)
+
         def uerr(a='da', b='db'):
             log.append(('uerr', a, b))
             raise JsonRpcError(4444, 'untyped')
@@ -88,7 +95,7 @@ class Served:
             log.append(('boom', a, b))
             raise ValueError(MARK)
 
-        self.funcs = dict(echo=echo, terr=terr, uerr=uerr, boom=boom)
+        self.funcs = dict(echo=echo, terr=terr, ferr=ferr, uerr=uerr, boom=boom)
 
     def register(self, disp, is_async):
         for name, f in self.funcs.items():
@@ -262,7 +269,7 @@ def run_single(case, rec):
                 continue
             p, docshape = check_request_doc(client.sent[0][0], [(method, args, kwargs, notation != 'notify')])
             if p:
-                rec.violation('C07:single:request document:%s' % p.split(':')[0].split(' %')[0][:50], c, expected='valid request', observed=p)
+                rec.violation('C07:single:request document:%s' % norm(p)[:60], c, expected='valid request', observed=p)
                 continue
             if not single_log_ok(served.log, want_log):
                 rec.violation('C07:single:function executed %d times / with other arguments' % len(served.log), c,
@@ -347,7 +354,7 @@ def run_batch(case, rec):
     pair = tuple(case['pair'])
     elems = []
     for i, (m, c, shape) in enumerate(case['elems']):
-        a, kw = args_for(shape, i)
+        a, kw = args_for(shape, i + case.get('off', 0))
         elems.append((m, a, kw, c))
     results = {}
     for notation in BATCH_NOTATIONS:
@@ -386,7 +393,7 @@ def run_batch(case, rec):
                 continue
             p, docshape = check_request_doc(client.sent[0][0], elems)
             if p:
-                rec.violation('C07:batch:request document:%s' % p.split(':')[0].split(' %')[0][:50], c, expected='valid request', observed=p)
+                rec.violation('C07:batch:request document:%s' % norm(p)[:60], c, expected='valid request', observed=p)
                 continue
             want_log = [x for _, wl in wants for x in wl]
             if not single_log_ok(served.log, want_log):
@@ -426,14 +433,14 @@ def gen_cases(ctx):
     for pair in pairs:
         for idgen in IDGENS:
             for strict in (True, False):
-                for method in ('echo', 'terr', 'uerr', 'boom'):
+                for method in ('echo', 'terr', 'ferr', 'uerr', 'boom'):
                     for shape in ARGSHAPES:
                         for vi in (range(len(VALS)) if shape != 'none' else [0]):
                             if idgen not in ('sequential', 'randint12') and vi > 1:
                                 continue
                             yield dict(part='single', pair=pair, idgen=idgen, strict=strict, method=method, shape=shape, vi=vi)
     L = ctx.pick(3, 4)
-    behs = ['echo', 'terr', 'boom'] if ctx.quick else ['echo', 'terr', 'uerr', 'boom']
+    behs = ['echo', 'ferr', 'boom'] if ctx.quick else ['echo', 'terr', 'ferr', 'uerr', 'boom']
     for n in range(1, L + 1):
         for kinds in itertools.product((True, False), repeat=n):
             for ms in itertools.product(behs, repeat=n):
@@ -446,7 +453,8 @@ def gen_cases(ctx):
                             if idgen in ('randint1M', 'random', 'uuid') and len(set(ms)) > 1:
                                 continue
                             for strict in ((True, False) if n <= 2 else (True,)):
-                                yield dict(part='batch', pair=pair, idgen=idgen, strict=strict, elems=elems)
+                                for off in ((0, 3, 4, 6) if (n <= 2 and idgen == 'sequential') else (0,)):
+                                    yield dict(part='batch', pair=pair, idgen=idgen, strict=strict, elems=elems, off=off)
 
 
 def run_case(case, rec):
